@@ -339,7 +339,11 @@ def run_species(case):
     try:
         sites, names = S.spin_half_species(Sp, cn, cs, **kw)
     except Exception as e:
+        if case.get('refused') and isinstance(e, ValueError) and 'invalid `cons_' in str(e):
+            return {'problems': []}
         return {'error': '%s: %s' % (type(e).__name__, str(e)[:150]), 'tb': traceback.format_exc()[-500:]}
+    if case.get('refused'):
+        return {'problems': ['invalid option accepted']}
     probs = []
     if list(names) != ['up', 'down'] or len(sites) != 2 or sites[0] is sites[1]:
         probs.append('returned species names %r / %d sites' % (names, len(sites)))
@@ -407,7 +411,11 @@ def run_corr(case):
                 a = [a_[i % len(a_)] for i in range(L)]
                 b = [b_[i % len(b_)] for i in range(L)]
                 r['a'], r['b'] = a_, b_
-            C = psi.correlation_function(a, b, **kw)
+            if case.get('arrays'):
+                # operators handed in as npc arrays (documented; the Jordan-Wigner string can then not be determined: bosonic operators only)
+                C = psi.correlation_function(ch.sites[0].get_op(a), ch.sites[0].get_op(b), **kw)
+            else:
+                C = psi.correlation_function(a, b, **kw)
 
             def rng_(x):
                 return list(range(L)) if x is None else (list(range(x)) if isinstance(x, int) else sorted(x))
@@ -833,7 +841,7 @@ def _bad_call(S, npc, site, mir, which):
     """calls documented to be refused (ValueError) or to do nothing: returns (description, problem or None, applicable)"""
     names = sorted(n for n in mir.ops if n not in ('Id', 'JW'))
     d = len(mir.labels)
-    which = which % 13
+    which = which % 15
     calls = {
         0: ('add_op(existing name)', lambda: site.add_op(names[0], np.eye(d), hc=False), ValueError),
         1: ("add_op('not valid!')", lambda: site.add_op('not valid!', np.eye(d), hc=False), ValueError),
@@ -845,6 +853,8 @@ def _bad_call(S, npc, site, mir, which):
         8: ("set_common_charges(new_charges='bogus')", lambda: S.set_common_charges([site], 'bogus'), ValueError),
         9: ('kron(one operator)', lambda: S.kron(site.Id), ValueError),
         10: ('rename_op(a, a)', lambda: site.rename_op(names[0], names[0]), None),
+        13: ("rename_op('JW', tmp); rename_op(tmp, 'JW')", lambda: (site.rename_op('JW', 'JWtmpx'), site.rename_op('JWtmpx', 'JW')), None),
+        14: ('add_op(rank-4 array)', lambda: site.add_op('W14x', npc.outer(site.Id, site.Id), hc=False), ValueError),
         11: ('set_common_charges(wrong old_charge_index)', lambda: S.set_common_charges([site], [[(1, 0, site.leg.chinfo.qnumber)]]), ValueError),
     }
     if which == 5:
@@ -1123,9 +1133,14 @@ def run_book(case):
                         else:
                             st = _hc_state(mir, M) if hcmode == 'auto' else False
                             put(name, M, None if hcmode == 'auto' else False)
-                            mir.ops[name] = (M, jw)
                             if mir.hc is not None:
+                                if hcmode == 'auto' and st is not False:
+                                    # the operator found as the conjugate gets (or keeps) an entry as well
+                                    for n2, (M2, _) in mir.ops.items():
+                                        if mir.hc.get(n2) is False and np.max(np.abs(M2.conj().T - M)) < 1e-12:
+                                            mir.hc[n2] = None
                                 mir.hc[name] = st
+                            mir.ops[name] = (M, jw)
                         step = list(step) + ['%s.%s' % (a, b)]
                     elif not cand:
                         status = 'skipped'
@@ -1151,7 +1166,7 @@ def run_book(case):
             else:
                 raise ValueError('unknown step ' + str(kind))
         except Exception as e:
-            out['error'] = {'step': si, 'op': step, 'error': type(e).__name__, 'msg': str(e)[:200], 'tb': traceback.format_exc()[-700:]}
+            out['error'] = {'step': si, 'op': step, 'error': type(e).__name__, 'msg': str(e)[:200], 'tb': traceback.format_exc()[-1800:]}
             out['applied'].append('raised')
             break
         out['applied'].append(status)
@@ -1241,8 +1256,14 @@ def run_mpsterm(case):
             elif f == 'tcf_right':
                 tL, tR = T(job['term_L']), T(job['term_R'])
                 r['parity'] = (par(T(tL, job['i_L'])) + par(T(tR, job['j_R'][0]))) % 2
-                r['want'] = [_cl(ev(T(tL, job['i_L']) + T(tR, j))) for j in sorted(job['j_R'])]
-                r['got'] = [_cl(x) for x in psi.term_correlation_function_right(tL, tR, job['i_L'], job['j_R'])]
+                jR = job['j_R']
+                if job.get('default_j_R'):
+                    # j_R=None: "defaults to range(j0, L) where j0 is chosen such that term_R starts one site right of term_L" (as far as
+                    # term_R stays on the chain)
+                    j0 = job['i_L'] + max(i for _, i in tL) + 1 - min(i for _, i in tR)
+                    jR = [j for j in range(j0, L) if j + max(i for _, i in tR) < L]
+                r['want'] = [_cl(ev(T(tL, job['i_L']) + T(tR, j))) for j in sorted(jR)]
+                r['got'] = [_cl(x) for x in psi.term_correlation_function_right(tL, tR, job['i_L'], None if job.get('default_j_R') else jR)]
             elif f == 'tcf_left':
                 tL, tR = T(job['term_L']), T(job['term_R'])
                 r['parity'] = (par(T(tL, job['i_L'][0])) + par(T(tR, job['j_R']))) % 2
@@ -1294,13 +1315,27 @@ def run_mpsterm(case):
 
 
 class Tracer:
-    """line recording (sys.settrace) restricted to the anchored source files of the tree under test: which lines of
-    tenpy/networks/site.py, terms.py, mps.py were executed by the cases of this payload (coverage table of harness/c12.py)"""
+    """line recording restricted to the anchored source files of the tree under test: which lines of tenpy/networks/site.py,
+    terms.py, mps.py were executed by the cases of this payload (coverage table of harness/c12.py).  sys.monitoring (PEP 669): every
+    location reports once and is then disabled, so the recording costs next to nothing; sys.settrace as a fallback."""
     FILES = ('tenpy/networks/site.py', 'tenpy/networks/terms.py', 'tenpy/networks/mps.py')
 
     def __init__(self):
         self.lines = {f: set() for f in self.FILES}
+        self.byname = {}
         self.local = {f: self._mk(self.lines[f]) for f in self.FILES}
+        self.mon = getattr(sys, 'monitoring', None)
+
+    def _set_of(self, fn):
+        st = self.byname.get(fn, 0)
+        if st == 0:
+            st = None
+            f2 = fn.replace(os.sep, '/')
+            for f in self.FILES:
+                if f2.endswith(f):
+                    st = self.lines[f]
+            self.byname[fn] = st
+        return st
 
     @staticmethod
     def _mk(s):
@@ -1311,20 +1346,35 @@ class Tracer:
         return local
 
     def _glob(self, frame, event, arg):
-        fn = frame.f_code.co_filename
-        if fn.endswith('s.py') or fn.endswith('e.py'):
-            fn = fn.replace(os.sep, '/')
-            for f in self.FILES:
-                if fn.endswith(f):
-                    self.lines[f].add(frame.f_code.co_firstlineno)
-                    return self.local[f]
-        return None
+        st = self._set_of(frame.f_code.co_filename)
+        if st is None:
+            return None
+        st.add(frame.f_code.co_firstlineno)
+        return self._mk(st)
+
+    def _on_line(self, code, line):
+        st = self._set_of(code.co_filename)
+        if st is not None:
+            st.add(line)
+        return self.mon.DISABLE
 
     def start(self):
+        if self.mon is not None:
+            try:
+                self.mon.use_tool_id(self.mon.COVERAGE_ID, 'c12cov')
+                self.mon.register_callback(self.mon.COVERAGE_ID, self.mon.events.LINE, self._on_line)
+                self.mon.set_events(self.mon.COVERAGE_ID, self.mon.events.LINE)
+                return
+            except Exception:
+                self.mon = None
         sys.settrace(self._glob)
 
     def stop(self):
-        sys.settrace(None)
+        if self.mon is not None:
+            self.mon.set_events(self.mon.COVERAGE_ID, 0)
+            self.mon.free_tool_id(self.mon.COVERAGE_ID)
+        else:
+            sys.settrace(None)
 
     def dump(self):
         return {f: sorted(v) for f, v in self.lines.items()}
@@ -1337,7 +1387,7 @@ def main():
     payload = json.load(open(sys.argv[1]))
     KINDS.update({'table': run_table, 'terms': run_terms, 'mpo': run_mpo, 'grouped': run_grouped, 'corr': run_corr, 'book': run_book,
                   'mpsterm': run_mpsterm, 'ctor': run_ctor, 'species': run_species})
-    f = KINDS[payload['kind']]
+    f = (lambda c: KINDS[c['_kind']](c)) if payload['kind'] == 'mixed' else KINDS[payload['kind']]
     tr = Tracer() if payload.get('trace') else None
     if tr:
         import tenpy.networks.mps  # noqa: F401   (module-level code is not part of the table)
